@@ -651,6 +651,14 @@ def replay(path):
 
     data = json.load(open(path))
     rp = data.get("replay", data)
+    if rp.get("config_variant"):
+        from checks import altcfg
+
+        return altcfg.replay(data)
+    if rp.get("kind") == "mainrun":
+        from checks import main_wiring
+
+        return main_wiring.replay(data)
     scn = rp.get("scenario", rp)
     if "actions" not in scn:
         print("no scenario in this replay file:", json.dumps(data)[:400])
